@@ -4,7 +4,9 @@ Every random choice comes from the `random.Random` passed in.  Probabilities are
 exactly as they would stand in a ruleset file."""
 import itertools
 
-ALPHA_POOL = ['abcdefghij', 'klmnopqrst', 'uvwxyzåäö', 'абвгдежзик', 'αβγδεζηθικ', 'aßeŉoﬁuǰsς', 'straße']
+# `denİzİ`: U+0130 stays as it is in a stored word (its lower-casing is two code points; the trainer keeps the length, fix 1bd5a0b) -
+# a value the guesser must neither lower-case on loading nor touch under an `L` of a mask
+ALPHA_POOL = ['abcdefghij', 'klmnopqrst', 'uvwxyzåäö', 'абвгдежзик', 'αβγδεζηθικ', 'aßeŉoﬁuǰsς', 'straße', 'denİzİab']
 DIGITS = '0123456789'
 OTHERS = ['!', '@', '#', '$', '%', ' ', '_', '-', '.', '€', '😀', '*', '+']
 CONTEXT = ['#1', ';p', ':p', '*0*', '<3', 'n1', 'c#', '#2pac', 'h8', '2pac', '1+1']
